@@ -8,6 +8,8 @@ import (
 	"bytes"
 	"encoding/json"
 	"os"
+
+	"github.com/cnotch/ipchub/utils/verifhook"
 )
 
 // EncodeJSONFile 编码 JSON 文件
@@ -18,6 +20,7 @@ func EncodeJSONFile(path string, obj interface{}) error {
 	}
 
 	defer f.Close()
+	verifhook.Point("json.opened", path)
 
 	var formatted bytes.Buffer
 	body, err := json.Marshal(obj)
@@ -29,12 +32,15 @@ func EncodeJSONFile(path string, obj interface{}) error {
 		return err
 	}
 
+	verifhook.Point("json.beforeWrite", path, f, formatted.Bytes())
 	if _, err := f.Write(formatted.Bytes()); err != nil {
 		return err
 	}
+	verifhook.Point("json.written", path)
 	if err := f.Sync(); err != nil {
 		return err
 	}
+	verifhook.Point("json.synced", path)
 
 	return nil
 }
